@@ -99,6 +99,14 @@ func c13Prop(c *sim.Case) {
 	}
 
 	b := w.NewBrowser("a")
+	// requests for other URLs while a login is pending: each gets a new session; what counts is the last one
+	for i, n := 0, sim.Weighted(c, "earlier-requests", 3, 2, 1); i < n; i++ {
+		other := genTarget(c, "earlier")
+		r0 := b.Get(other)
+		c.Logf("earlier GET %s -> %v", other, r0)
+		checkNoCache(c, r0, "login-redirect")
+		c.Class("pending-login-superseded")
+	}
 	first := b.Get(target)
 	c.Logf("GET %s -> %v", target, first)
 	if !first.IsRedirect() {
